@@ -432,5 +432,35 @@ def range_terms(src):
     out.append(f'def mi_scaling : String := "{vals["scaling"]}"')
     out.append("/-- last rebinding of `anomaly` before the range is taken (the array that reaches the kernel) -/")
     out.append(f'def mi_anomaly_last : String := "{vals["anomaly"]}"')
+    # round 5c: every statement of the worker that touches `anomaly` before the range is taken, in
+    # program order, and the statements of `Data.normalize_time_series_array` it calls — the model
+    # `miCallX` interprets these strings (a statement it does not know is "cannot evaluate")
+    steps = []
+    for st in f.body:
+        s = ast.unparse(st)
+        if isinstance(st, ast.Assign) and any(isinstance(t, ast.Name) and t.id == "range_min"
+                                              for t in st.targets):
+            break
+        if isinstance(st, ast.Expr) and isinstance(st.value, ast.Constant):
+            continue                                   # docstring
+        names = {n.id for n in ast.walk(st) if isinstance(n, ast.Name)}
+        if "anomaly" in names:                         # (the `print` under `if self.silence_level` is not)
+            steps.append(s)
+    _, g = find_method(src, "core/data.py", "Data", "normalize_time_series_array")
+    nsteps = [ast.unparse(st) for st in g.body
+              if not (isinstance(st, ast.Expr) and isinstance(st.value, ast.Constant))]
+    call = None
+    for n in ast.walk(f):
+        if isinstance(n, ast.Call) and isinstance(n.func, ast.Name) and n.func.id == "mutual_information":
+            call = [ast.unparse(a) for a in n.args]
+    if call is None:
+        raise Untranslatable("_cython_calculate_mutual_information: no call of mutual_information")
+    q = lambda l: "[" + ", ".join('"' + x.replace('"', "'") + '"' for x in l) + "]"  # noqa
+    out.append("/-- statements of `_cython_calculate_mutual_information` that touch `anomaly` before the range -/")
+    out.append(f"def mi_steps : List String := {q(steps)}")
+    out.append("/-- statements of `Data.normalize_time_series_array` -/")
+    out.append(f"def normalize_steps : List String := {q(nsteps)}")
+    out.append("/-- arguments of the call of the Cython wrapper `mutual_information` -/")
+    out.append(f"def mi_call_args : List String := {q(call)}")
     out.append("")
     return out
